@@ -221,7 +221,8 @@ def cover(F, res, cg):
 
 
 def facade(F, res):
-    f = F.fn("tx3_lang::facade::Workspace::lower")
+    from ..common import with_helpers
+    f = with_helpers(F, "tx3_lang::facade::Workspace::lower")
     cfg = mir.CFG(f)
     du = mir.DefUse(f)
     w = where(f)
